@@ -13,7 +13,7 @@ import json
 import os
 import shutil
 import sys
-from typing import List
+from typing import Dict, List
 
 from jsonargparse import ActionConfigFile, ArgumentParser
 from jsonargparse._common import parser_context_vars
@@ -59,23 +59,49 @@ def place(work, kind, name, text):
     return p
 
 
+def untyped(p):
+    """arguments without a type: an optional, a positional and a list-valued positional"""
+    p.add_argument("--u", default="declared")
+    p.add_argument("source", nargs="?", help="where from")
+    p.add_argument("rest", nargs="*")
+
+
+def declared(p):
+    """the declared defaults as the parser holds them: value, type and identity of action.default per action, plus what
+    get_defaults() says once the default config files are taken away"""
+    acts = [(a.dest, id(a.default), repr(a.default)) for a in p._actions]
+    saved = p.default_config_files
+    p.default_config_files = []
+    try:
+        d = repr(p.get_defaults())
+    except BaseException as e:  # noqa
+        d = "exc:" + type(e).__name__
+    finally:
+        p.default_config_files = saved
+    return acts, d
+
+
 def run(case, base, idx):
     work = os.path.join(base, "a%d" % idx)
     os.makedirs(work)
     entry, kind, fail = case["entry"], case["dir"], case["fail"]
-    bad = "a: notanint\n" if fail else "a: 5\n"
+    # the file also sets the untyped arguments (no type => no %-template in their help line)
+    bad = ("a: notanint\n" if fail else "a: 5\n") + "u: fromfile\nsource: fromfile\n"
     arg, snap, call = None, None, None
     if entry == "args_cfg":
         p = ArgumentParser(exit_on_error=False)
         p.add_argument("--cfg", action=ActionConfigFile)
         p.add_argument("--a", type=int, default=1)
         p.add_argument("--l", type=List[int], default=[1])
+        untyped(p)
         arg = ["--l", "[2, 3]", "--cfg", place(work, kind, "c.yaml", bad), "--a", "7"]
         call = lambda: p.parse_args(arg)
     elif entry in ("dflt_get_defaults", "dflt_help", "dflt_parse_args"):
         f = place(work, kind, "d.yaml", bad)
         p = ArgumentParser(exit_on_error=False, default_config_files=[f])
         p.add_argument("--a", type=int, default=1)
+        p.add_argument("--d", type=Dict[str, int], default={"k": 1})
+        untyped(p)
         arg = []
         call = {"dflt_get_defaults": p.get_defaults, "dflt_help": p.format_help, "dflt_parse_args": lambda: p.parse_args(arg)}[entry]
     elif entry == "list_file":
@@ -92,6 +118,7 @@ def run(case, base, idx):
     else:
         raise SystemExit("unknown entry " + entry)
     snap = json.dumps(arg, sort_keys=True)
+    d_before = declared(p)
     g_before = read_globals()
     ok, exc = True, ""
     try:
@@ -107,8 +134,10 @@ def run(case, base, idx):
     except OSError:
         pass
     argparse.Namespace = ORIG_ARGPARSE_NS
+    d_after = declared(p)
     shutil.rmtree(work, ignore_errors=True)
-    return {"ok": ok, "globals": gl, "args_same": json.dumps(arg, sort_keys=True) == snap, "exc": exc}
+    return {"ok": ok, "globals": gl, "args_same": json.dumps(arg, sort_keys=True) == snap, "defaults_same": d_before == d_after,
+            "exc": exc}
 
 
 def main():
